@@ -547,3 +547,48 @@ impl Oracle {
         self.primary.set(token, price, is_synthetic, is_open)
     }
 }
+
+// verif hooks (g5): add-only, cfg-guarded thin wrappers of private items. No logic of their own.
+#[cfg(gmsol_verif)]
+pub mod verif_hooks {
+    use super::*;
+
+    /// Calls the private `try_adjust_price_with_max_deviation_factor`.
+    pub fn try_adjust_price_with_max_deviation_factor(
+        factor: &u128,
+        price: &gmsol_utils::Price,
+        ref_price: Option<&Decimal>,
+    ) -> Option<gmsol_utils::Price> {
+        super::try_adjust_price_with_max_deviation_factor(factor, price, ref_price)
+    }
+
+    impl Oracle {
+        /// Calls `Oracle::with_prices_opts`.
+        pub fn verif_with_prices_opts<'info, T>(
+            &mut self,
+            store: &AccountLoader<'info, Store>,
+            token_map: &AccountLoader<'info, TokenMapHeader>,
+            tokens: &[Pubkey],
+            remaining_accounts: &'info [AccountInfo<'info>],
+            f: impl FnOnce(&mut Self, &'info [AccountInfo<'info>]) -> Result<T>,
+            allow_closed: bool,
+        ) -> Result<T> {
+            self.with_prices_opts(store, token_map, tokens, remaining_accounts, f, allow_closed)
+        }
+
+        /// Calls `Oracle::clear_all_prices`.
+        pub fn verif_clear_all_prices(&mut self) {
+            self.clear_all_prices()
+        }
+
+        /// Calls `Oracle::validate_time`.
+        pub fn verif_validate_time(&self, target: &impl ValidateOracleTime) -> CoreResult<()> {
+            self.validate_time(target)
+        }
+
+        /// Number of entries of the primary price map.
+        pub fn verif_primary_len(&self) -> usize {
+            self.primary.len()
+        }
+    }
+}
